@@ -1,11 +1,12 @@
-SPECIFICATION TraceSpec
+SPECIFICATION Spec
 CONSTANTS
-  MaxLen = 1000000
+  MaxLen = 6
+  EmitFrom = 100
   GraphIdempotent = TRUE
   CacheTransparent = TRUE
   SerialsMemoised = TRUE
   ScopeFixed = TRUE
-  TouchInvisible = TRUE
+  TouchInvisible = FALSE
 INVARIANTS C19_FlatStable C19_GraphStable C19_SerialsStable C19_DerivedStable
-POSTCONDITION TraceAccepted
+PROPERTIES C19_SerialsNeverChange
 CHECK_DEADLOCK FALSE
